@@ -234,6 +234,12 @@ def intBin (s : Text) : Outcome Int :=
 /-- `''.join(list_of_str)` -/
 def joinStr (l : List Text) : Text := l.flatten
 
+/-- `try: … except (E1, E2) as ex: raise <the library's data error>(…)`: the listed exception kinds become the
+    library error, everything else passes -/
+def catchData {α} (kinds : List ExcKind) : Outcome α → Outcome α
+  | .escape k => if kinds.contains k then .dataError else .escape k
+  | o => o
+
 /-! ### configuration entries and values that are text OR bytes (`iso8583._field_to_iso8583`) -/
 
 /-- the entries of a `bit_config` element the translated functions read -/
